@@ -127,6 +127,19 @@ def run(ch: Checker) -> None:
                                 ok = True
                     if not ok:
                         bad = ('a work id is queued for reaping on a path where its is_inactive() was not found true', p.describe())
+    # the sweep visits every work: the loop over the work table is left only by exhaustion
+    from .common import dict_iter
+    sweeps = [l for l in walk_no_nested(ci.node) if isinstance(l, ast.For) and dict_iter(l.target, l.iter, 'self.works') is not None]
+    for l in sweeps:
+        for x in walk_no_nested(l):
+            if isinstance(x, (ast.Break, ast.Return)) or (isinstance(x, ast.Raise)):
+                inner_loops = [y for y in walk_no_nested(l) if isinstance(y, (ast.For, ast.While)) and y is not l and any(z is x for z in ast.walk(y))]
+                if isinstance(x, ast.Break) and inner_loops:
+                    continue
+                bad = bad or ('the reaper\'s sweep over the work table stops early (%s at line %d): works after that point are not examined in this sweep, so an idle connection '
+                              'that sits behind a live one is not closed within the bound' % (type(x).__name__.lower(), x.lineno), [])
+    if not sweeps:
+        bad = bad or ('no loop over self.works in _cleanup_inactive', [])
     cleaned = [norm(c.args[0]) for l in walk_no_nested(ci.node) if isinstance(l, ast.For) for c in walk_no_nested(l) if isinstance(c, ast.Call) and attr_chain(c.func) == 'self._cleanup' and c.args]
     ch.check(bad is None and n > 0 and len(cleaned) == 1, 'C20.3', ci, 'reap only the idle', 'only ids whose predicate held are collected and cleaned up', bad[0] if bad else 'collection / clean-up loop not found', witness=bad[1] if bad else None)
 
